@@ -183,6 +183,16 @@ class Driver:
         return acts
 
     def do(self, W, p, t, kind, opts):
+        if kind == "Tick":
+            # a timer tick as a client-visible event of the history (timeout rules are evaluated against the task's start time)
+            W.tick()
+            W.drain()
+            p.live()
+            done = getattr(p, "_pre_done", set())
+            done.add(t["tid"])
+            p._pre_done = done
+            self.log.append(("action:Tick", p.name, t["nid"], True, self.phase, {}))
+            return ok(UNIT)
         r = W.action(p.pid, t["tid"], kind, opts)
         p.live()
         done = getattr(p, "_pre_done", set())
@@ -271,6 +281,8 @@ def cause_of(scen_name):
         tags.append("env")
     if "catches" in txt:
         tags.append("catch")
+    if "'timeout'" in txt:
+        tags.append("timeout")
     return "+".join(tags) or "plain"
 
 
@@ -373,6 +385,9 @@ def confirm_reload(v, scen_name):
             elif e[0] == "answer" or e[0].startswith("action:"):
                 from .replay import snake
                 kind = "next" if e[0] == "answer" else snake(e[0].split(":")[1])
+                if kind == "tick":
+                    steps.append({"op": "tick"})
+                    continue
                 st = {"op": "action", "kind": kind, "nid": e[2], "occurrence": 0, "options": (e[5] if len(e) > 5 else {})}
                 if e[2] == "<dyn>":
                     st = {"op": "answer_all", "max": 1, "options": {}}
